@@ -13,6 +13,7 @@ Oracle: models.streams_usb2.check_out_stream -- decided from the bytes on the wi
 import hashlib
 
 from dsim.kernel import Violations
+from models.usb2_wire import gen_idle_data
 from models.usb2 import UTMIHost, token_packet
 from models import streams_usb2 as su
 from engines.usb2_device import device_bench, IDLE_INIT
@@ -136,6 +137,7 @@ def gen(rng, tier, index):
             ops.append({"op": "idle", "n": rng.randint(1, 40)})
     horizon = nops * (mps * cfg["byte_period"] // 2 + 12 * bit + 30)
     cfg["consumer"] = [] if always_ready else gen_consumer(rng, horizon, stall_heavy)
+    cfg["idle_data"] = gen_idle_data(rng)
     return {"engine": ENGINE, "config": cfg, "ops": ops}
 
 
@@ -223,7 +225,7 @@ def run(scn):
         yield from h.idle(bsize + 40)
 
     txr = cfg["txready"] if cfg["txready"] == "always" else tuple(cfg["txready"])
-    host = UTMIHost(script, byte_period=cfg["byte_period"], pre=cfg["pre"], post=cfg["post"], gap_pattern=cfg["gaps"], txready=txr)
+    host = UTMIHost(script, idle_data=cfg.get("idle_data"), byte_period=cfg["byte_period"], pre=cfg["pre"], post=cfg["post"], gap_pattern=cfg["gaps"], txready=txr)
     per_byte = cfg["byte_period"] + (max(cfg["gaps"]) if cfg["gaps"] else 0)
     per_txn = (mps + 10) * per_byte + 2 * ctx.timeout + 3 * ctx.turn + ctx.tok_gap + 60
     max_cycles = 800 + sum(op.get("n", 0) for op in ops) + (len(ops) + drain_budget) * (per_txn + mps + 8) + 3 * bsize
